@@ -244,7 +244,7 @@ func unmarshalFloat(data []byte, bitSize int) (protoreflect.Value, error) {
 }
 
 func quote(raw []byte) []byte {
-	if len(raw) > 0 && (raw[0] != '"' || raw[len(raw)-1] != '"') {
+	if len(raw) < 2 || raw[0] != '"' || raw[len(raw)-1] != '"' {
 		raw = strconv.AppendQuote(raw[:0], string(raw))
 	}
 	return raw
